@@ -12,7 +12,11 @@ RULE = ("Two feature files on disk (features/f0.feature, features/f1.feature in 
         "{pass, fail (AssertionError), error (RuntimeError), undef (no step definition), pend (StepNotImplementedError), "
         "hookb (before_scenario raises for it), hooka (after_scenario raises for it), desel (tagged @x, run with "
         "--tags='not x'; its step would fail)}; deviation bounding: all assignments with <= 2 (quick) / <= 4 (thorough) "
-        "non-pass slots over 11 (thorough: 17) ordered shape pairs with 2-6 scenario slots; x stale rerun.txt present/absent. Run 1 = real Configuration "
+        "non-pass slots over 11 (thorough: 17) ordered shape pairs with 2-6 scenario slots; x stale rerun.txt present/absent; "
+        "plus, on 3 (thorough: 19) pairs, one container-level hook fault - after_feature / after_tag of a feature tag / "
+        "before_feature for each file, after_rule / after_tag of a rule tag / before_rule for each rule (the container ends "
+        "hook_error; after-hooks leave the scenarios' statuses alone, before-hooks leave them untested) - combined with "
+        "<= 2 (thorough: <= 3, on the quick pairs) non-pass slots, stale file present. Run 1 = real Configuration "
         "(-f rerun -o rerun.txt features), collect_feature_locations + parse_features on the files, formatters from "
         "make_formatters, ModelRunner with a fresh StepRegistry. Oracle: rerun.txt lists exactly file:line (line known "
         "from the renderer) of the scenarios whose final status is failed or error-class, in run order; none -> no file "
@@ -57,6 +61,9 @@ SHAPES = {
 QUICK_PAIRS = (("S", "S"), ("SS", "O2"), ("O2", "S+R(S)"), ("S+R(S)", "SS"), ("bg:S,O1", "R(S,O1)"),
                ("R(S,O1)", "O1|1"), ("O1|1", "bg:S,O1"), ("S", "O1+R(O2)"), ("O1+R(O2)", "S"), ("R(S)+R(O1)", "SS"),
                ("O2", "R(S)+R(O1)"))
+# pairs that get the container-level hook faults in the quick tier (feature faults in both files; a rule holding a plain
+# scenario in f0, a rule holding a scenario and an outline row in f1)
+QUICK_FAULT_PAIRS = (("S", "S"), ("S+R(S)", "O2"), ("S", "R(S,O1)"))
 THOROUGH_PAIRS = QUICK_PAIRS + (("SS", "SS"), ("O2", "O2"), ("O1+R(O2)", "R(S,O1)"), ("S", "S,O2+R(S,O1)"),
                                 ("S,O2+R(S,O1)", "S"), ("R(S)+R(O1)", "O1+R(O2)"))
 
@@ -474,7 +481,8 @@ def cases(tier):
     quick = tier == "quick"
     pairs = QUICK_PAIRS if quick else THOROUGH_PAIRS
     bound = 2 if quick else 4
-    fault_bound = 2 if quick else 3
+    fault_pairs = [(pr, 2) for pr in QUICK_FAULT_PAIRS] if quick else \
+                  [(pr, 3 if pr in QUICK_PAIRS else 2) for pr in THOROUGH_PAIRS + QUICK_FAULT_PAIRS[1:]]
     for ndev in range(0, bound + 1):            # simplest first over all pairs
         for a, b in pairs:
             s0, s1 = SHAPES[a], SHAPES[b]
@@ -482,11 +490,11 @@ def cases(tier):
             for kinds in assignments(n, ndev):
                 for stale in (0, 1):
                     yield (s0, s1, kinds, stale)
-        if ndev > fault_bound:
-            continue
         # one container-level hook fault (feature / rule: after_X, after_tag, before_X) x the same scenario kinds;
         # with a stale file present (the harder case: it has to be replaced or removed)
-        for a, b in pairs:
+        for (a, b), fault_bound in fault_pairs:
+            if ndev > fault_bound:
+                continue
             s0, s1 = SHAPES[a], SHAPES[b]
             n = nslots(s0) + nslots(s1)
             for cf in container_faults(s0, s1):
@@ -500,7 +508,8 @@ def run(ctx):
                   "kinds": len(KINDS), "stale_file": "present/absent (container-fault cases: present)",
                   "container_hook_faults": "every single one of after_feature/after_tag/before_feature per feature and "
                                            "after_rule/after_tag/before_rule per rule",
-                  "max_nonpass_scenarios_with_container_fault": 2 if ctx.quick else 3,
+                  "container_fault_pairs": "3 pairs, <= 2 non-pass scenarios" if ctx.quick else
+                                           "19 pairs, <= 3 non-pass scenarios on the 11 quick pairs, <= 2 on the others",
                   "executions": "a case with a rerun file counts 2 (run + re-run), otherwise 1"}
     ctx.sweep(rerun_case, cases(ctx.tier), chunk=16, name="run -> rerun.txt -> run")
     kinds_seen = set()
